@@ -332,6 +332,13 @@ func (e *c14env) delClient(dc *FuncSrc, fClients *types.Var) {
 		if x, ok := n.(*ast.RangeStmt); ok {
 			if id, ok := unparen(x.X).(*ast.Ident); ok && info.ObjectOf(id) == snapVar {
 				loop = x
+			} else if ok && snapVar != nil {
+				// a copy of the snapshot (the value handed back by a helper)
+				if lst, _ := ff.At(x.X); lst != nil {
+					if t := ff.term(x.X); t != nil && lst.EqualUnder(t, TVar(snapVar)) {
+						loop = x
+					}
+				}
 			}
 		}
 		return true
